@@ -18,27 +18,28 @@ import (
 )
 
 var cmds = map[string]func([]string) int{
-	"mbox":          mbox.Main,
-	"agwpe":         agwpeh.Main,
-	"ardop":         ardoph.Main,
-	"mboxfs-c12":    mboxfs.MainConfine,
-	"mboxfs-c11":    mboxfs.MainCrash,
-	"lzh-run":       lzh.MainRun,
-	"lzh-judge":     lzh.MainJudge,
-	"lzh-hostile":   lzh.MainHostile,
-	"body":          msgh.MainBody,
-	"msg":           msgh.MainMsg,
-	"b2f-c01":       b2f.MainC01,
-	"b2f-c02":       b2f.MainC02,
-	"b2f-c04":       b2f.MainC04,
-	"b2f-c05":       b2f.MainC05,
-	"b2f-c16":       b2f.MainC16,
-	"b2f-c17":       b2f.MainC17,
-	"b2f-c03":       b2f.MainC03,
-	"b2f-c03-child": b2f.MainC03Child,
-	"posrep":        posrep.Main,
-	"telnet":        telneth.Main,
-	"url":           urlh.Main,
+	"mbox":           mbox.Main,
+	"agwpe":          agwpeh.Main,
+	"ardop":          ardoph.Main,
+	"mboxfs-c12":     mboxfs.MainConfine,
+	"mboxfs-c11":     mboxfs.MainCrash,
+	"lzh-run":        lzh.MainRun,
+	"lzh-judge":      lzh.MainJudge,
+	"lzh-hostile":    lzh.MainHostile,
+	"body":           msgh.MainBody,
+	"msg":            msgh.MainMsg,
+	"b2f-c01":        b2f.MainC01,
+	"b2f-c02":        b2f.MainC02,
+	"b2f-c04":        b2f.MainC04,
+	"b2f-c05":        b2f.MainC05,
+	"b2f-c16":        b2f.MainC16,
+	"b2f-c17":        b2f.MainC17,
+	"b2f-c03":        b2f.MainC03,
+	"b2f-robustmode": b2f.MainRobustMode,
+	"b2f-c03-child":  b2f.MainC03Child,
+	"posrep":         posrep.Main,
+	"telnet":         telneth.Main,
+	"url":            urlh.Main,
 }
 
 func main() {
